@@ -32,6 +32,12 @@ INT_ALPHA = [
     0, 1, -1, 127, 128, 300, 16383, 16384, 2**31 - 1, -(2**31), 2**31, 2**32 - 1,
     2**32, 2**53 + 1, 2**63 - 1, -(2**63), 2**63, 2**64 - 1,
 ]
+# every varint length boundary: 2^(7k) for the plain kinds, +-2^(7k-1) for the zig-zag kinds
+for _k in range(1, 10):
+    for _v in (2**(7 * _k) - 1, 2**(7 * _k), 2**(7 * _k - 1) - 1, 2**(7 * _k - 1), 2**(7 * _k - 1) + 1,
+               -(2**(7 * _k - 1)) + 1, -(2**(7 * _k - 1)), -(2**(7 * _k - 1)) - 1):
+        if _v not in INT_ALPHA:
+            INT_ALPHA.append(_v)
 F32_MAX = 3.4028234663852886e38
 F32_DENORM = 1.401298464324817e-45
 
@@ -40,7 +46,8 @@ def f32(x: float) -> float:
     return struct.unpack("<f", struct.pack("<f", x))[0]
 
 
-FLOAT_ALPHA = [0.0, -0.0, 1.5, -1.5, f32(0.1), F32_MAX, F32_DENORM, math.inf, -math.inf, math.nan]
+# 3.4028235e38 is a double just ABOVE the largest float32 that still rounds to it
+FLOAT_ALPHA = [0.0, -0.0, 1.5, -1.5, f32(0.1), F32_MAX, 3.4028235e38, F32_DENORM, math.inf, -math.inf, math.nan]
 DOUBLE_ALPHA = [0.0, -0.0, 1.5, -1.5, 0.1, F32_MAX, 5e-324, 1.7976931348623157e308,
                 math.inf, -math.inf, math.nan]
 STRING_ALPHA = ["", "a", "é", "\U0001F600", "\x00", "x" * 128,
